@@ -79,7 +79,7 @@ def stream(start, n):
 class Rig(object):
     """A transport under test plus uniform access to what its double saw."""
 
-    def __init__(self, variant, bs):
+    def __init__(self, variant, bs, wl="both"):
         from ioflo.aio.serial import serialing
         from ioflo.aio import wiring
         D_ = D
@@ -108,7 +108,9 @@ class Rig(object):
                 self.accepted = lambda: bytes(self.dev.written)
                 self.iolog = self.dev.log
             return
-        self.inner = wiring.WireLog(buffify=True)
+        # the wire log records both directions, or only one of them (`wl` = both | txonly | rxonly)
+        self.wl_tx, self.wl_rx = wl != "rxonly", wl != "txonly"
+        self.inner = wiring.WireLog(rx=self.wl_rx, tx=self.wl_tx, buffify=True)
         self.inner.reopen()
         self.wl = D_.RecordingWireLog(inner=self.inner)
         tls = variant in TLS_VARIANTS
@@ -177,7 +179,7 @@ def _run_case(case):
         other.obj.tx(OTHER)
     except Exception:   # noqa: BLE001  (the operation under test is exercised below)
         other = None
-    rig = Rig(variant, bs)
+    rig = Rig(variant, bs, case.get("wl", "both"))
     obj = rig.obj
     queued = bytearray()
     rxpos = case.get("rxbase", 0)      # position code of the first received byte (codes >= 128 are no UTF-8 on their own)
@@ -212,8 +214,13 @@ def _run_case(case):
                 return False
             exp_tx_buf = b"".join(("TX %s\n" % (a,)).encode() + d + b"\n" for a, d in rig.wl.txs)
             exp_rx_buf = b"".join(("RX %s\n" % (a,)).encode() + d + b"\n" for a, d in rig.wl.rxs)
-            if rig.inner.getTx() != exp_tx_buf or rig.inner.getRx() != exp_rx_buf:
-                fails.append(("wirelog-buffer", "step %d %r: WireLog buffer does not hold the records written to it" % (step, op)))
+            want_tx = exp_tx_buf if rig.wl_tx else None
+            want_rx = exp_rx_buf if rig.wl_rx else None
+            if rig.inner.getTx() != want_tx or rig.inner.getRx() != want_rx:
+                fails.append(("wirelog-buffer" + ("" if case.get("wl", "both") == "both" else "@" + case["wl"]),
+                              "step %d %r: WireLog(rx=%r, tx=%r) buffers tx %r rx %r do not hold the records written to it (tx %r rx %r)"
+                              % (step, op, rig.wl_rx, rig.wl_tx, (rig.inner.getTx() or b"")[-30:], (rig.inner.getRx() or b"")[-30:],
+                                 (want_tx or b"")[-30:], (want_rx or b"")[-30:])))
                 return False
         return True
 
@@ -552,9 +559,15 @@ def work(shard, seed, tier):
             for toks, calls in scripts(lens, ncalls):
                 ops = [["tx", l] for l in lens] + [["svtx", toks]] + [["svtx"] for _ in range(calls - 1)]
                 case = {"variant": variant, "ops": ops}
+                if n % 5 == 3:
+                    case["wl"] = "txonly"        # a wire log that records one direction only
+                elif n % 7 == 3:
+                    case["wl"] = "rxonly"
                 fails, info = run_case(case)
                 nt, cls = classes_of(variant, info, fails)
                 cls.append("msgs=%d" % len(lens))
+                if case.get("wl"):
+                    cls.append("wirelog-" + case["wl"])
                 acc.case(key=(variant, ops), nontrivial=nt, classes=cls, sample=case if (n % 997 == 5) else None)
                 for sig, what in fails:
                     acc.fail(sig, what, case)
